@@ -2,9 +2,11 @@ package rules
 
 import (
 	"fmt"
+	"go/constant"
 	"go/token"
 	"go/types"
 	"morlockverif/checker/internal/core"
+	"sort"
 	"strings"
 
 	"golang.org/x/tools/go/ssa"
@@ -52,6 +54,8 @@ func runC05(c *Ctx) {
 	c.guard("R05-limit", func() { c05Push(c, g) })
 	c.guard("R05-reptail", func() { c05Recount(c, g) })
 	c.guard("R05-mate", func() { c05Mate(c, g) })
+	r.Rule("R05-dead", "the insufficient-material test itself: K v K; exactly one minor piece among the knights and bishops of BOTH colours with three pieces on the board; with four pieces, two bishops (of either colour) that stand on squares of the same colour, told apart with a mask that is one of the two colour complexes of the board", 4)
+	c.guard("R05-dead", func() { c05Dead(c, g) })
 	_ = b
 	// analysis runs on forked boards: the fork must carry the clock and the history the rules above count in
 	r.Rule("R05-fork", "a forked board carries the half-move clock, the per-hash counters and the shared past of the original, so draws are adjudicated on it exactly as on the original (the rule of C08, re-decided here)", 4)
@@ -362,7 +366,7 @@ func c05Recount(c *Ctx, g *gameModel) {
 	curOK := false
 	if len(cursor.Edges) == 2 {
 		a, b2 := pathExpr(cursor.Edges[0]), pathExpr(cursor.Edges[1])
-		want1 := nodeP.Name() + ".prev"
+		want1 := paramName(nodeP) + ".prev"
 		curOK = (a == want1 && strings.HasSuffix(b2, ".prev") && strings.HasPrefix(b2, "phi:")) || (b2 == want1 && strings.HasSuffix(a, ".prev") && strings.HasPrefix(a, "phi:"))
 	}
 	// distances visited: first comparison at distance 1 when counter = init
@@ -580,4 +584,179 @@ func recountGuards(c *Ctx, g *gameModel) (posEq, parityEq bool, detail, where st
 	}
 	detail = fmt.Sprintf("increment guarded by exact position equality=%v, equal side to move=%v; further conjuncts (pre-filters): %v", posEq, parityEq, others)
 	return
+}
+
+// c05Dead decides the shape of Position.HasInsufficientMaterial: which piece sets are counted and
+// which mask separates the bishops' square colours.
+func c05Dead(c *Ctx, g *gameModel) {
+	r := c.R
+	fn := g.insufficient
+	where := c.pos(fn.Pos())
+	white, black := g.bm.colors["White"], g.bm.colors["Black"]
+	knight, bishop := g.bm.pieces["Knight"], g.bm.pieces["Bishop"]
+	// leaf of an OR tree: load of p.pieces[c][k] with constant c, k
+	leafOf := func(v ssa.Value) (string, bool) {
+		ld, ok := v.(*ssa.UnOp)
+		if !ok || ld.Op != token.MUL {
+			return "", false
+		}
+		ia, ok := ld.X.(*ssa.IndexAddr)
+		if !ok {
+			return "", false
+		}
+		k, ok1 := constInt(ia.Index)
+		ia2, ok2 := ia.X.(*ssa.IndexAddr)
+		if !ok1 || !ok2 {
+			return "", false
+		}
+		col, ok3 := constInt(ia2.Index)
+		if fa, ok4 := ia2.X.(*ssa.FieldAddr); !ok3 || !ok4 || core.FieldName(fieldOfValue(fa)) != "pieces" {
+			return "", false
+		}
+		return fmt.Sprintf("%d/%d", col, k), true
+	}
+	var leaves func(v ssa.Value, out map[string]int) bool
+	leaves = func(v ssa.Value, out map[string]int) bool {
+		if bo, ok := v.(*ssa.BinOp); ok && bo.Op == token.OR {
+			return leaves(bo.X, out) && leaves(bo.Y, out)
+		}
+		if l, ok := leafOf(v); ok {
+			out[l]++
+			return true
+		}
+		return false
+	}
+	key := func(m map[string]int) string {
+		var ks []string
+		for k, n := range m {
+			ks = append(ks, fmt.Sprintf("%s x%d", k, n))
+		}
+		sort.Strings(ks)
+		return strings.Join(ks, ",")
+	}
+	minors := fmt.Sprintf("%d/%d x1,%d/%d x1,%d/%d x1,%d/%d x1", white, knight, white, bishop, black, knight, black, bishop)
+	{
+		var ks []string
+		ks = append(ks, fmt.Sprintf("%d/%d x1", white, knight), fmt.Sprintf("%d/%d x1", white, bishop), fmt.Sprintf("%d/%d x1", black, knight), fmt.Sprintf("%d/%d x1", black, bishop))
+		sort.Strings(ks)
+		minors = strings.Join(ks, ",")
+	}
+	var bs []string
+	bs = append(bs, fmt.Sprintf("%d/%d x1", white, bishop), fmt.Sprintf("%d/%d x1", black, bishop))
+	sort.Strings(bs)
+	bishops := strings.Join(bs, ",")
+	// maximal OR trees
+	isOperandOfOr := map[ssa.Value]bool{}
+	for _, b := range fn.Blocks {
+		for _, ins := range b.Instrs {
+			if bo, ok := ins.(*ssa.BinOp); ok && bo.Op == token.OR {
+				isOperandOfOr[bo.X], isOperandOfOr[bo.Y] = true, true
+			}
+		}
+	}
+	trees := map[ssa.Value]string{}
+	var seenSets []string
+	for _, b := range fn.Blocks {
+		for _, ins := range b.Instrs {
+			bo, ok := ins.(*ssa.BinOp)
+			if !ok || bo.Op != token.OR || isOperandOfOr[bo] {
+				continue
+			}
+			m := map[string]int{}
+			if leaves(bo, m) {
+				trees[bo] = key(m)
+				seenSets = append(seenSets, key(m))
+			}
+		}
+	}
+	hasMinors, hasBishops := false, false
+	for _, k := range trees {
+		hasMinors = hasMinors || k == minors
+		hasBishops = hasBishops || k == bishops
+	}
+	sort.Strings(seenSets)
+	r.Check(hasMinors, "R05-dead", "K+minor v K counts the knights and bishops of both colours", where, "", fmt.Sprintf("piece sets combined in the function: %v (colour/piece xcount); needed %s", seenSets, minors))
+	r.Check(hasBishops, "R05-dead", "the two-bishop case looks at the bishops of both colours", where, "", fmt.Sprintf("piece sets combined in the function: %v; needed %s", seenSets, bishops))
+	// the colour-complex mask
+	in := newInterp(c.P)
+	maskOK, maskDetail, nMask := true, "", 0
+	for _, b := range fn.Blocks {
+		for _, ins := range b.Instrs {
+			bo, ok := ins.(*ssa.BinOp)
+			if !ok || bo.Op != token.AND {
+				continue
+			}
+			for _, pair := range [][2]ssa.Value{{bo.X, bo.Y}, {bo.Y, bo.X}} {
+				if trees[pair[1]] != bishops {
+					continue
+				}
+				ld, ok := pair[0].(*ssa.UnOp)
+				if !ok {
+					continue
+				}
+				gl, ok := ld.X.(*ssa.Global)
+				if !ok {
+					continue
+				}
+				nMask++
+				v, ok := evalGlobalInitSSA(c.P, in, gl)
+				mv, isC := uint64(0), false
+				if ok {
+					if cst, ok := v.(absint.Const); ok && cst.V != nil {
+						mv, isC = constant.Uint64Val(constant.ToInt(cst.V))
+					}
+				}
+				if !isC || (mv != 0x55aa55aa55aa55aa && mv != 0xaa55aa55aa55aa55) {
+					maskOK = false
+					maskDetail = fmt.Sprintf("%s = %#x selects alternate files, not the squares of one colour (0x55aa55aa55aa55aa or its complement): two bishops on one file but opposite colours are declared dead, two on the same colour but neighbouring files are not", gl.Name(), mv)
+				}
+			}
+		}
+	}
+	r.Check(maskOK && nMask >= 1, "R05-dead", "same-coloured bishops are told by a colour-complex mask", where, "", maskDetail)
+	// the comparisons: piece count == 2, 3, 4; minors == 1; bishops == 2; masked bishops != 1
+	type cmp struct {
+		what string
+		op   token.Token
+		k    int64
+	}
+	var got []string
+	for _, b := range fn.Blocks {
+		for _, ins := range b.Instrs {
+			bo, ok := ins.(*ssa.BinOp)
+			if !ok || (bo.Op != token.EQL && bo.Op != token.NEQ) {
+				continue
+			}
+			k, isC := constInt(bo.Y)
+			call, isCall := bo.X.(*ssa.Call)
+			if !isC || !isCall || call.Call.StaticCallee() == nil || call.Call.StaticCallee().Name() != "PopCount" {
+				continue
+			}
+			arg := call.Call.Args[0]
+			if u, ok := arg.(*ssa.UnOp); ok && u.Op == token.MUL {
+				var defs []ssa.Value
+				resolveDefs(arg, map[ssa.Value]bool{}, &defs)
+				if len(defs) == 1 {
+					arg = defs[0]
+				}
+			}
+			what := "?"
+			switch {
+			case trees[arg] == minors:
+				what = "minors"
+			case trees[arg] == bishops:
+				what = "bishops"
+			default:
+				if a, ok := arg.(*ssa.BinOp); ok && a.Op == token.AND {
+					what = "masked"
+				} else if strings.Contains(pathExpr(arg), "rotated") {
+					what = "all"
+				}
+			}
+			got = append(got, fmt.Sprintf("%s%s%d", what, bo.Op, k))
+		}
+	}
+	sort.Strings(got)
+	want := []string{"all==2", "all==3", "all==4", "bishops==2", "masked!=1", "minors==1"}
+	r.Check(fmt.Sprint(got) == fmt.Sprint(want), "R05-dead", "piece-count case split and thresholds", where, "", fmt.Sprintf("comparisons %v, expected %v", got, want))
 }
